@@ -613,4 +613,23 @@ example : spec (inputOf earlyWitness [1] false) (observe (inputOf earlyWitness [
 example : spec (inputOf objectFormWitness [1] false) (observe (inputOf objectFormWitness [1] false)) = true ∧
     (observe (inputOf objectFormWitness [1] false)).issued = true := by decide
 
+/-! ### histories -/
+
+/-- C16 over histories: whatever sequence of calls one IdP answers — recipients interleaved, metadata
+    reloaded between calls, explicit-certificate and metadata-certificate calls in any order, PEFIM and
+    non-PEFIM — every answer satisfies the per-call specification with respect to the store in force at that
+    call.  Immediate from `C16_model_meets_spec`, because the model is stateless: each step's observation
+    depends on that step's input only.  The content of the statement for the real code (no answer depends on
+    an earlier call or an earlier store) is carried by the correspondence run over histories. -/
+theorem C16_history_meets_spec (steps : List Input) : specHistory steps (observeHistory steps) = true := by
+  unfold specHistory observeHistory
+  simp only [List.length_map, decide_true, Bool.true_and]
+  induction steps with
+  | nil => rfl
+  | cons a t ih => simp only [List.map_cons, List.zip_cons_cons, List.all_cons, C16_model_meets_spec a, ih, Bool.and_self]
+
+/-- the seeded scenario: no certificate (clear fall-back), then the recipient publishes one: sealed -/
+example : (observeHistory [inputOf { callEnc with md := [⟨.signing, 4, true⟩] } [1] false, inputOf callEnc [1] false]).map
+    (fun o => o.wire.body) = [.clear, .sealed] := by decide
+
 end C16
